@@ -37,4 +37,8 @@ def jobs(tier):
                 J.append(doio_job(nm, op, vec, 2, 2, 2, 2, 3000))
                 for c in range(1 if op == 31 else 0, 4): J.append(doio_job('%s.cnt%d' % (nm, c), op, vec, 3, 2, 1, 1, 3000, extra=['FIXCNT=%d' % c], mem_gb=8))
             else: J.append(doio_job(nm, op, vec, 3, 3, 2, 2, 3000, mem_gb=8))
+    for nm, op, what in (('epoll_fire', 0, 'wait_and_fire_events: one batch of kernel events'), ('epoll_waitfd', 1, 'wait_for_fd: register, sleep, event / timeout / interrupt'),
+                         ('epoll_withdraw', 2, 'wait_for_fd(fd, 0): descriptor withdrawn before close')):
+        J.append(Job(nm, 'C10/h_epoll.cpp', 'harness_epoll', defines=['OP=%d' % op], unwind=12, shims=['libc.c'], timeout=300 if q else 3000, mem_gb=4,
+                     desc='EventEngineEPoll ' + what, bounds='2 descriptors x 2 directions, one step from every consistent registered-interest state'))
     return J
